@@ -463,7 +463,7 @@ def pool_bb_m2_i1(alive0: bool, exp0: bool, ab0: bool, ab1: bool, first: int, p1
     return _bar(2, 2, 1, alive0, True, exp0, False, ab0, ab1, first, p1, 1 - first)
 
 
-@cond(q=450, t=700, tiers=("thorough",), engine="coop", encoded=ENCODED, stubs=ASSUMPTIONS[:2], bound=_B % ("2 borrowers", 2, 2), replay=_bar_replay(2, 2, 2), signature=_sig_factory(2, 2, 2))
+@cond(q=450, t=1600, tiers=("thorough",), engine="coop", encoded=ENCODED, stubs=ASSUMPTIONS[:2], bound=_B % ("2 borrowers", 2, 2), replay=_bar_replay(2, 2, 2), signature=_sig_factory(2, 2, 2))
 def pool_bb_m2_i2(alive0: bool, exp0: bool, alive1: bool, exp1: bool, ab0: bool, ab1: bool, first: int, p1: int) -> bool:
     """
     pre: (exp0 or not exp1) and 0 <= first <= 1 and 0 <= p1 <= _P1
@@ -526,7 +526,7 @@ def pool_br_m2_i2(alive0: bool, exp0: bool, alive1: bool, exp1: bool, ab0: bool,
     return _bar(3, 2, 2, alive0, alive1, exp0, exp1, ab0, False, first, p1, 1 - first)
 
 
-@cond(q=60, t=900, tiers=("thorough",), engine="coop", encoded=ENCODED, stubs=ASSUMPTIONS[:2], bound="2 borrowers + reaper, start thread + 1 preemption, max_idle 0..2, pre-idle 0..2 (all symbolic)", replay=_replay_factory(False, 1), signature=_signature_for(False, 1))
+@cond(q=60, t=2400, tiers=("thorough",), engine="coop", encoded=ENCODED, stubs=ASSUMPTIONS[:2], bound="2 borrowers + reaper, start thread + 1 preemption, max_idle 0..2, pre-idle 0..2 (all symbolic)", replay=_replay_factory(False, 1), signature=_signature_for(False, 1))
 def borrowers_and_reaper(max_idle: int, n_idle: int, alive0: bool, alive1: bool, exp0: bool, exp1: bool, ab0: bool, ab1: bool, first: int, p1: int, t1: int) -> bool:
     """
     pre: 0 <= max_idle <= 2 and 0 <= n_idle <= 2 and n_idle <= max_idle and (exp0 or not exp1)
@@ -536,7 +536,7 @@ def borrowers_and_reaper(max_idle: int, n_idle: int, alive0: bool, alive1: bool,
     return _bar(False, max_idle, n_idle, alive0, alive1, exp0, exp1, ab0, ab1, first, p1, t1)
 
 
-@cond(q=60, t=1500, tiers=("thorough",), engine="coop", encoded=ENCODED, stubs=ASSUMPTIONS[:2], bound="2 borrowers + reaper + close, 2 preemptions, max_idle 0..2, pre-idle 0..2",
+@cond(q=60, t=4000, tiers=("thorough",), engine="coop", encoded=ENCODED, stubs=ASSUMPTIONS[:2], bound="2 borrowers + reaper + close, 2 preemptions, max_idle 0..2, pre-idle 0..2",
       replay=_replay_factory(True, 2), signature=_signature_for(True, 2))
 def with_pool_close(max_idle: int, n_idle: int, alive0: bool, alive1: bool, exp0: bool, exp1: bool, ab0: bool, ab1: bool, first: int, p1: int, t1: int, p2: int, t2: int) -> bool:
     """
